@@ -929,7 +929,14 @@ class PandasModelBase(
                         transform_op = self.transform_op_map[transform_op]
                     except KeyError:
                         pass
-                    vk = res[value_name].agg(transform_op)
+                    if (len(op.group_by) < 1) and (transform_op in ["first", "last"]):
+                        # only a groupby knows these names: the first / last non-missing value of the column
+                        non_missing = res[value_name].dropna()
+                        vk = None
+                        if non_missing.shape[0] > 0:
+                            vk = non_missing.iloc[0 if transform_op == "first" else -1]
+                    else:
+                        vk = res[value_name].agg(transform_op)
                 else:
                     # expect and strip off initial underbar
                     assert isinstance(transform_op, str)
